@@ -46,7 +46,7 @@ func init() {
 			"R3: a wire length (result of a varint/fixed decoder, also when kept in a local struct) reaches arithmetic, slice bounds, indices or make sizes only where guard facts bound it: an unsigned comparison against a len(buf)-derived operand, or sign test plus signed bound after the conversion (the sign test may be made before the conversion: the unsigned value is compared with a constant the signed type can hold, and the signed bound may be tested on another evaluation of the same conversion); a window of t bytes is cut only after t was compared with what remains of the sliced value; an offset result that a private decoder proves to lie within its buffer at every success exit is bounded where it is used as a bound of that very buffer, or is added to the start of the window that was passed (a running offset fed this way is bounded as a bound of the buffer it walks) - any other arithmetic on it is reported. " +
 			"R4: every failure exit reports 0 consumed bytes (or the count of the failing callee, 0 under its own R4). " +
 			"R5: a returned slice/string derives from a sub-slice of the input or from a copy (SliceCopy, make+copy) of one; a returned list of byte sequences starts empty and grows by append of such values. " +
-			"R6: the consumed count of a success exit is a guarded constant, an expression the facts and loop invariants (loop variable <= len, len(cursor) <= len(buf) for a cursor only re-sliced without upper bound) place in [0,len(buf)], a callee count (also a further offset result of a private decoder that the callee proves to lie within its buffer at every success exit), a running offset that starts at 0 and grows by the counts of decoders applied to buf[offset:], a count computed with the math/bits counting functions whose whole interval (TrailingZeros64 etc. range over 0..64) is covered by the length guard, the end offset of a window cut from buf under R3, or an external decoder's count under an n>0 guard. R3 also: a byte of the input used as a number (a one-byte length header) is a wire length where it bounds a slice. R7: private functions reached from the decoders (error constructors, formatters) index fixed-size tables in range, by interval evaluation of the index (constants, + - / by constants, widening conversions, bits.Len as a monotone function - bits.Len(x) of a 64-bit unsigned x that is not bounded below 2^63 ranges up to 64, i.e. over 65 values -, refined by dominating comparisons with constants). R8: in every loop of the decoders (and of the private functions they hand their input to) the cursor - an integer phi of the loop header that reaches an index or slice bound of the buffer, or a phi that is a window of the buffer - does not arrive recognisably unchanged (the phi itself, also through merges in the body, plus zero, re-sliced from 0) over any back edge: a way round the loop that does not advance reads the same byte again and never returns.",
+			"R6: the consumed count of a success exit is a guarded constant, an expression the facts and loop invariants (loop variable <= len, len(cursor) <= len(buf) for a cursor only re-sliced without upper bound) place in [0,len(buf)], a callee count (also a further offset result of a private decoder that the callee proves to lie within its buffer at every success exit), a running offset that starts at 0 and grows by the counts of decoders applied to buf[offset:], a count computed with the math/bits counting functions whose whole interval (TrailingZeros64 etc. range over 0..64) is covered by the length guard, the end offset of a window cut from buf under R3, or an external decoder's count under an n>0 guard. R3 also: a byte of the input used as a number (a one-byte length header) is a wire length where it bounds a slice. R7: private functions reached from the decoders (error constructors, formatters) index fixed-size tables in range, by interval evaluation of the index (constants, + - / by constants, widening conversions, bits.Len as a monotone function - bits.Len(x) of a 64-bit unsigned x that is not bounded below 2^63 ranges up to 64, i.e. over 65 values -, refined by dominating comparisons with constants). R8: in every loop of the decoders (and of the private functions they hand their input to) the cursor - an integer phi of the loop header that reaches an index or slice bound of the buffer, or a phi that is a window of the buffer - does not arrive recognisably unchanged (the phi itself, also through merges in the body, plus zero, re-sliced from 0) over any back edge: a way round the loop that does not advance reads the same byte again and never returns. R9 (x_c16_i.go): every shift in a decoder or its private helpers whose count is a non-constant signed value has a count shown >= 0 by interval evaluation (arithmetic, loop variables, dominating comparisons with constants) - Go panics on a negative signed shift count whatever the shifted value.",
 		NotDecided: "nothing material about panics on the idioms recognised; an unrecognised index/bound expression is reported as undecided (CHECK-ERROR), not guessed. 'Sub-range' is established as provenance, not arithmetic.",
 	})
 }
@@ -369,6 +369,12 @@ func runC16(c *Ctx) {
 		}
 	}
 	c.tableIndexInRange("C16.R7", decoders)
+	c.shiftCountNonNegXI("C16.R9", append(append([]*ssa.Function{}, decoders...), func() (hs []*ssa.Function) {
+		for _, h := range helpers {
+			hs = append(hs, h.fn)
+		}
+		return
+	}()...))
 	// R8 termination of the decoder loops (v_codec_g_loop.go)
 	{
 		n := 0
